@@ -18,6 +18,7 @@ import (
 	_ "github.com/v-byte-cpu/sx/pkg/scan/socks5"
 	_ "github.com/v-byte-cpu/sx/pkg/scan/tcp"
 	_ "github.com/v-byte-cpu/sx/pkg/scan/udp"
+	_ "github.com/v-byte-cpu/sx/zzlitmus"
 	"verif/vs/drv"
 )
 
